@@ -516,9 +516,9 @@ def main(run):
         fu = clist([cnatl(f) for f in fronts_uid])
         stale = any(x is not None for x in pre_cd)
         popf = clist(["(%s, %s)" % (czl(img[j]), cfl(obs_vals[j])) for j in range(n)])
-        # every selNSGA2 call goes through the hand model; every third one (and every call on objects that carry
-        # attributes from earlier calls) also through the regenerated definitions
-        use_gen = stale or stats["sel_calls"] % 3 == 0
+        # every selNSGA2 call goes through the hand model; every second one (float instance) and every call on objects
+        # that carry attributes from earlier calls (both instances) also through the regenerated definitions
+        use_gen = stale or stats["sel_calls"] % 2 == 0
         add("CSelF %s %s %s %s %s %s %s" % (cbool(nd == "standard"), cnat(k), popf, fu, cnatl(sel_uid),
                                             clist([copt(x, cfloat) for x in pre_cd]) if stale else "[]",
                                             clist([copt(x, cfloat) for x in cd])), case, gen=use_gen)
@@ -527,7 +527,7 @@ def main(run):
         popq = clist(["(%s, %s)" % (czl(img[j]), cql(obs_vals[j])) for j in range(n)])
         add("CSelQ %s %s %s %s %s %s %s %s" % (cbool(exact), cbool(nd == "standard"), cnat(k), popq, fu, cnatl(sel_uid),
                                             clist([copt(None if x is None else float(x), cqinf) for x in pre_cd]) if stale else "[]",
-                                            clist([copt(x, cqinf) for x in cd])), case, gen=use_gen)
+                                            clist([copt(x, cqinf) for x in cd])), case, gen=use_gen and stale)
         return res
 
     # ------------------------------------------------------------------------
@@ -850,13 +850,17 @@ def main(run):
     n_dis = len(run.disagreements)
     import time as _time
     t_corr = _time.time()
+    # shards of similar cost: the generators emit families of very different size one after the other
+    order = list(range(len(terms)))
+    rng.shuffle(order)
+    terms, cases, with_gen = [terms[i] for i in order], [cases[i] for i in order], [with_gen[i] for i in order]
     if gen_check == "check_both":
         # one pass; per term: the hand model, or the hand model and the regenerated definitions
         run.extra_cov["terms_also_through_regenerated_definitions"] = sum(1 for g in with_gen if g)
-        correspond_robust(run, ["(%s, %s)" % (cbool(g), x) for g, x in zip(with_gen, terms)], cases, shard=run.scale(150, 400),
+        correspond_robust(run, ["(%s, %s)" % (cbool(g), x) for g, x in zip(with_gen, terms)], cases, shard=run.scale(380, 400),
                           check="(fun p : bool * case => if fst p then check_both (snd p) else check (snd p))", requires=reqs)
     else:
-        correspond_robust(run, terms, cases, shard=run.scale(150, 400))
+        correspond_robust(run, terms, cases, shard=run.scale(380, 400))
     timing["correspondence_s"] = round(_time.time() - t_corr, 1)
     new_dis = [d for d in run.disagreements[n_dis:] if d.get("index") is not None]
     if gen_check == "check_both" and new_dis:
